@@ -505,6 +505,7 @@ def run_engine(P, eng, exe, res, rng, tier, known):
             'correspondence': f'engine {eng.name}: lean/LA/Model vs harness/eng_{eng.name}.c',
             'ops': small, 'impl': a[0], 'model': b[0], 'first_diff_line': first_diff(a[0], b[0]),
             'original_ops': c.ops if len(c.ops) < 200 else c.ops[:200],
+            'first_run_impl': im[:200], 'first_run_model': mo[:200],
             'stderr_tail': serr[-3000:]}, fi)
         found_input |= fi
         reported += 1
